@@ -238,6 +238,11 @@ func (r *reader) Clone(sr *io.SectionReader) (metadata.Reader, error) {
 	if err != nil {
 		return nil, err
 	}
+	// The clone reads its own copy of the TOC from sr but shares the node table of r: both must describe the
+	// same TOC (the one that was, or will be, verified against the trusted digest).
+	if got, want := er.TOCDigest(), r.r.TOCDigest(); got != want {
+		return nil, fmt.Errorf("TOC of the cloned reader has digest %q; want %q", got, want)
+	}
 
 	return newReader(er, r.rootID, r.idMap, r.idOfEntry, r.estargzOpts), nil
 }
